@@ -41,6 +41,9 @@ class Ctx(object):
         self.budget = None
         self.counters = {}     # contract name -> [evaluations, errors]
         self.replaying = False
+        self.held_lists = []
+        self.depth = 0          # nesting of instrumented subject functions (0 = called by the harness)
+        self.case_results = []  # (label, object, snapshot) of every holdable result returned during the running case
 
     def rng(self, *keys):
         return np.random.default_rng([self.seed, self.pnum, self.shard] + [int(k) for k in keys])
@@ -56,6 +59,59 @@ class Ctx(object):
         """exhaustive enumerations are split over the shards by index"""
         return i % self.nshards == self.shard
 
+    def hold(self, module, name, label=None):
+        """record the results of module.name (no post-condition): they must be unchanged at the end of the case and are
+        then scribbled over, so that an output aliasing a cache or a module-level table corrupts the next call visibly"""
+        label = label or "%s.%s" % (getattr(module, "__name__", str(module)).split(".")[-1], name)
+
+        def before(args, kwargs):
+            self.depth += 1
+
+        def after(args, kwargs, result, exc):
+            self.depth -= 1
+            if exc is None and self.depth == 0 and _holdable(result) and len(self.case_results) < 400:
+                self.case_results.append((label, result, _snap_result(result)))
+        contracts.spy(module, name, before=before, after=after)
+
+    def probe_alias(self, fn, *args, **kwargs):
+        """call, overwrite what was returned, call again with the same arguments: the second answer must not have been
+        affected by what the caller did to the first (an output that aliases a memo or a module-level table shows here);
+        returns the second result, which the contracts have judged like any other"""
+        first = fn(*args, **kwargs)
+        snap = _snap_result(first) if _holdable(first) else None
+        # the harness itself is about to overwrite this object: it leaves the stability monitors
+        self.case_results[:] = [e for e in self.case_results if e[1] is not first]
+        for h in self.held_lists:
+            h[:] = [e for e in h if e[0] is not first]
+        _scribble(first)
+        second = fn(*args, **kwargs)
+        if snap is not None:
+            same = _same_result(second, snap)
+            self.mon.check("alias:%s answers the same after the caller overwrote the previous result" % getattr(fn, "__name__", "call"),
+                           same, observed=None if same else _snap_result(second), expected=None if same else snap)
+        return second
+
+    def hold_object(self, label, obj, attrs):
+        """same for array attributes of an object handed out by the subject (e.g. rot/trans/syscond of an sg.sg instance)"""
+        for a in attrs:
+            v = getattr(obj, a, None)
+            if isinstance(v, np.ndarray) and len(self.case_results) < 400:
+                self.case_results.append(("%s.%s" % (label, a), v, v.copy()))
+
+    def end_case(self):
+        mon = self.mon
+        for label, obj, snap in self.case_results:
+            same = _same_result(obj, snap)
+            mon.check("stable:%s until the end of the case" % label, same, observed=None if same else _snap_result(obj),
+                      expected=None if same else snap,
+                      detail=None if same else "a result changed after it had been returned (another call wrote into it)")
+        for label, obj, snap in self.case_results:
+            _scribble(obj)
+        del self.case_results[:]
+        for h in self.held_lists:
+            del h[:]
+        self.depth = 0
+
     def out_of_time(self):
         return self.budget is not None and time.time() - self.t0 > self.budget
 
@@ -69,12 +125,15 @@ class Ctx(object):
             stack = []
 
             def before(args, kwargs):
+                self.depth += 1
                 stack.append([(i, a, _snap(a)) for i, a in list(enumerate(args)) + list(kwargs.items())
                               if isinstance(a, (np.ndarray, list))])
 
             held = []      # (result object, snapshot) of the previous call: a result must not change when the function is called again
+            self.held_lists.append(held)
 
             def after(args, kwargs, result, exc):
+                self.depth -= 1
                 for i, a, s in stack.pop():
                     same = _same(a, s)
                     mon.check("pure:%s" % label, same, observed=None if same else a, expected=None if same else s,
@@ -84,12 +143,34 @@ class Ctx(object):
                     same = _same_result(prev, snap)
                     mon.check("stable:%s" % label, same, observed=None if same else _snap_result(prev), expected=None if same else snap,
                               detail=None if same else "a result returned earlier changed when the function was called again")
-                if exc is None and _holdable(result):
-                    held.append((result, _snap_result(result)))
+                # only results handed to the harness are held: a subject function may do what it likes with an array it
+                # obtained from another subject function (rotations() transposes what permutations() gave it)
+                if exc is None and self.depth == 0 and _holdable(result):
+                    snap = _snap_result(result)
+                    held.append((result, snap))
+                    if len(self.case_results) < 400:
+                        self.case_results.append((label, result, snap))
             contracts.spy(module, name, before, after)
         c = contracts.ensure(module, name, cond)
         self.counters[label] = c
         return c
+
+
+def _scribble(r):
+    """overwrite a returned array in place: whoever still shares memory with it will show"""
+    try:
+        if isinstance(r, np.ndarray):
+            if r.flags.writeable and r.size:
+                if r.dtype.kind == "f":
+                    r[...] = -7.25e7        # finite garbage: a subject that reuses it keeps terminating and is judged by the oracles
+                elif r.dtype.kind in "iu":
+                    r[...] = 77
+        elif isinstance(r, (list, tuple)):
+            for v in r:
+                if isinstance(v, np.ndarray):
+                    _scribble(v)
+    except Exception:
+        pass
 
 
 def _snap(a):
@@ -136,6 +217,58 @@ def _same(a, s):
         return True
 
 
+def _enter_env(ctx, mod, n):
+    """process-global state a caller may legitimately have set; every property must hold in each of them:
+    checks switched off, numpy floating-point errors raised instead of warned, the library's logger at DEBUG"""
+    toggles = getattr(mod, "ENV_TOGGLES", ("checks_off", "fp_raise", "log_debug"))
+    k = n % 7
+    name = {1: "checks_off", 3: "fp_raise", 5: "log_debug"}.get(k)
+    if name is None or name not in toggles:
+        ctx.mon.config("environment:default")
+        return None
+    ctx.mon.config("environment:" + name)
+    if name == "checks_off":
+        prev = ctx.xfab.CHECKS.activated
+        ctx.xfab.CHECKS.activated = False
+        return (name, prev)
+    if name == "fp_raise":
+        prev = np.geterr()
+        np.seterr(invalid="raise", divide="raise", over="raise")
+        return (name, prev)
+    import logging
+    lg = logging.getLogger("xfab")
+    prev = (lg.level, lg.propagate, list(lg.handlers))
+    lg.setLevel(logging.DEBUG)
+    lg.propagate = False
+    if not any(isinstance(h, logging.NullHandler) for h in lg.handlers):
+        lg.addHandler(logging.NullHandler())
+    muted = []
+    for child in ("xfab.tools", "xfab.laue", "xfab.structure", "xfab.symmetry", "xfab.parameters", "xfab.detector", "xfab.sg"):
+        cl = logging.getLogger(child)
+        cl.setLevel(logging.NOTSET)
+        for h in cl.handlers:                       # the records are produced, nothing is printed
+            muted.append((h, h.level))
+            h.setLevel(logging.CRITICAL + 10)
+    return (name, prev + (muted,))
+
+
+def _leave_env(ctx, env):
+    if not env:
+        return
+    name, prev = env
+    if name == "checks_off":
+        ctx.xfab.CHECKS.activated = True if prev else False
+    elif name == "fp_raise":
+        np.seterr(**prev)
+    else:
+        import logging
+        lg = logging.getLogger("xfab")
+        lg.setLevel(prev[0])
+        lg.propagate = prev[1]
+        for h, lvl in prev[3]:
+            h.setLevel(lvl)
+
+
 def load_prop(prop):
     return importlib.import_module("vfw.props.%s" % prop.lower())
 
@@ -160,16 +293,25 @@ def run_shard(prop, tier, seed, shard, nshards, replay=None):
     else:
         cases = mod.workload(ctx)
     stopped_early = False
+    ncase = 0
     for kind, params in cases:
         if replay is None and ctx.out_of_time():
             stopped_early = True
             break
         mon.begin(kind, params)
+        env = _enter_env(ctx, mod, ncase) if replay is None else None
+        ncase += 1
         try:
             mod.CASES[kind](ctx, params)
         except Exception as exc:
             mon.check("case-runs-without-unexpected-exception", False,
-                      detail=traceback.format_exc(limit=6), observed=repr(exc))
+                      detail=traceback.format_exc(limit=6) + (" [environment: %s]" % env[0] if env else ""), observed=repr(exc))
+        finally:
+            _leave_env(ctx, env)
+        try:
+            ctx.end_case()
+        except Exception as exc:
+            ctx.counters.setdefault("end_case", [0, []])[1].append(repr(exc))
         mon.end()
     if hasattr(mod, "finish") and replay is None:
         mod.finish(ctx)
